@@ -91,6 +91,24 @@ def dense_conn_case(rng):
     return out + ["iter"] * 4
 
 
+def _script_used_up(o, site):
+    """step after which every scripted result of `site` (write / readv) has been consumed by a call (the script is a
+    FIFO that calls consume one entry each), or None"""
+    q, done_at = 0, None
+    last_script = max([i for i, op in enumerate(o.ops) if op.startswith("script " + site)] + [-1])
+    if last_script < 0:
+        return -1
+    for i in range(o.n):
+        if o.ops[i].startswith("script " + site):
+            q += len(o.ops[i].split()) - 2
+        for _ in o.env(i, site):
+            if q > 0:
+                q -= 1
+        if done_at is None and i >= last_script and q == 0:
+            done_at = i
+    return done_at
+
+
 def resume_oracle(o):
     """C11 `resume`: once the injected faults are used up, the very next iteration makes the progress a fault-free
     run makes: the whole backlog reaches the peer, everything the peer wrote is delivered"""
@@ -104,14 +122,7 @@ def resume_oracle(o):
     if any(w[3] in conn_oracle.FATAL for i in range(o.n) for w in o.env(i, "write")):
         return fails
     # write side: position where the scripted write results are used up
-    n_script = sum(len(op.split()) - 2 for op in o.ops if op.startswith("script write"))
-    last_script = max([i for i, op in enumerate(o.ops) if op.startswith("script write")] + [-1])
-    seen = 0
-    done_at = None if n_script else -1
-    for i in range(o.n):
-        seen += len(o.env(i, "write"))
-        if done_at is None and seen >= n_script and i >= last_script:
-            done_at = i
+    done_at = _script_used_up(o, "write")
     last_act = max([a.step for a in o.acts] + [0])
     if done_at is not None:
         start = max(done_at, last_act)
@@ -124,13 +135,10 @@ def resume_oracle(o):
                               "%s bytes are still buffered and the peer has %d of %d bytes" % (done_at, len(its), st["backlog"], len(o.received[-1]), total)))
     # read side
     if not any(a.name in ("stopRead", "startRead") for a in o.acts) and not any(op.startswith("hook") and "stopRead" in op for op in o.ops):
-        n_script = sum(len(op.split()) - 2 for op in o.ops if op.startswith("script readv"))
-        last_script = max([i for i, op in enumerate(o.ops) if op.startswith("script readv")] + [-1])
-        seen, done_at = 0, (None if n_script else -1)
+        done_at = _script_used_up(o, "readv")
         wrote, got = 0, 0
         for i in range(o.n):
             pending_before = wrote - got
-            seen += len(o.env(i, "readv"))
             for pw in o.env(i, "peerWrote"):
                 wrote += int(pw[2])
             got_here = sum(int(r[2]) for r in o.env(i, "readv") if r[2].isdigit())
@@ -141,8 +149,6 @@ def resume_oracle(o):
                 fails.append(("no-resume-read", "the injected read faults were used up at step %d; the fault-free iteration at step %d "
                               "read nothing although %d bytes the peer wrote are waiting" % (done_at, i, pending_before)))
                 break
-            if done_at is None and seen >= n_script and i >= last_script:
-                done_at = i
     return fails
 
 
